@@ -17,7 +17,7 @@ META = dict(
     functions=["Bf3File.write_file", "Bf3File.to_binary", "Bf3File.dir_to_binary", "Bf3Component.get_raw_data", "Bf3Component.from_encrypted_raw_data", "Bf3File.read_file", "Bf3File.from_binary", "Bf3File.set_config", "conf_dict_to_tlv", "Bec2File.write_file/to_binary/pack_auth_blocks/read_file/unpack_auth_blocks", "AesEncryptorMixin.encrypt/decrypt", "AES128Proxy.encrypt/decrypt/mac", "crypto.pad", "crypto.create_AES128"],
     stubs=["S-io", "S-cbc", "S-crc", "S-sha", "text-layer bypass (C01 lemmas)", "fresh-output cipher (secrecy query)", "raising cipher (fail-closed query)"],
     assumptions=["AES-CBC modelled as uninterpreted per-(key, previous block) bijection"],
-    bounds=dict(quick="content lengths {1,15,16,17,31,32,33,47,48}; BF3 framing direct + via set_config (1-2 entries); BEC2 framing with customer-key block; secrecy for lengths {1,16,17,33} BF3 and BEC2 (cust, update blocks); fail-closed: every cipher call index of a 2-component file", thorough="content lengths 1..64 direct; 1041-byte content (symbolic around the 1 KiB boundaries) through get_raw_data/from_encrypted_raw_data; set_config with 1..3 entries; secrecy lengths 1..48 step 5"),
+    bounds=dict(quick="content lengths {1,15,16,17,31,32,33,47,48}; BF3 framing direct + via set_config (1-2 entries); BEC2 framing with customer-key block; secrecy for lengths {1,16,17,33} BF3 and BEC2 (cust, update blocks); fail-closed: every cipher call index of a 2-component file; histories: one file object written twice (content replaced / other key between the writes), 17-byte content", thorough="content lengths 1..64 direct; 1041-byte content (symbolic around the 1 KiB boundaries) through get_raw_data/from_encrypted_raw_data; set_config with 1..3 entries; secrecy lengths 1..48 step 5"),
     outside=["contents > 64 bytes", "side channels", "ECC block secrecy wiring (C09)"],
 )
 
@@ -37,6 +37,9 @@ def jobs(tier, seed):
     if tier == "thorough":
         J.append(dict(name="stored:get_raw_data:n1041-sparse", kind="rawdata", n=1041, timeout=3000, cost=900))
     J.append(dict(name="stored:get_raw_data:n257-sparse", kind="rawdata", n=257, timeout=1500, cost=200))
+    # the stored form depends on the component's current content and on the key of this write only
+    for var in ("content-edit", "other-key"):
+        J.append(dict(name="history:rewrite-after-%s" % var, kind="hist", var=var, n=17, timeout=600, cost=60))
     J.append(dict(name="rec:twin", kind="rec", framing="bf3", how="direct", n=17, twin=True, expect="violated", timeout=300))
     for n in ([1, 16, 17, 33] if tier == "quick" else list(range(1, 49, 5)) + [16, 17, 32, 33]):
         for framing in ("bf3", "bec2"):
@@ -127,6 +130,44 @@ def run_job(job):
         res["symbolic_dims"] = 16 + job.get("n", 0) + sum(job.get("cfg", []))
         if res["verdict"] == "violated":
             res["signature"] = "C06:recovery"
+        return res
+
+    if kind == "hist":
+        n, var = job["n"], job["var"]
+
+        def h():
+            # one file object written twice: between the writes the encrypted component's content is replaced
+            # (same length), or the second write uses another key
+            key1 = sym.sym_bytes("key1", 16)
+            key2 = sym.sym_bytes("key2", 16)
+            c1 = sym.sym_bytes("c1", n)
+            c2 = sym.sym_bytes("c2", n)
+            vals = dict(key1=key1, key2=key2, c1=c1, c2=c2)
+            runner.track(vals)
+            comp = _mk_comp(bf, c1, n)
+            f = bf.Bf3File({}, [bf.Bf3Component({0xC3: b"\x02"}, b"\x01\x02\x03"), comp])
+            first = stubs.Carrier()
+            k_first, k_second = key1, (key1 if var == "content-edit" else key2)
+            f.write_file(first, k_first)
+            if var == "content-edit":
+                comp.blob = c2
+            want = c2 if var == "content-edit" else c1
+            second = stubs.Carrier()
+            f.write_file(second, k_second)
+            raw = second.raw
+            zp = want + bytes(-n % 16)
+            ok = raw[len(raw) - len(zp) :] == stubs.model_cbc_encrypt(k_second, None, zp)
+            if ok:
+                g = bf.Bf3File.read_file(second, True, k_second)
+                ok = g.components[-1].blob[:n] == want and len(g.components) == 2
+            if not ok:
+                runner.record_witness(**vals)
+            return ok
+
+        res = runner.run(h, job["timeout"] - 60, job["timeout"] - 60)
+        res["symbolic_dims"] = 32 + 2 * n
+        if res["verdict"] == "violated":
+            res["signature"] = "C06:stale-ciphertext"
         return res
 
     if kind == "rawdata":
@@ -347,6 +388,29 @@ def replay(job):
         g = bf.Bf3File.read_file(s, True, key)
         bad = not rawb.endswith(want_ct) or g.components[0].blob[: len(content)] != content
         return dict(reproduced=bad, signature="C06:recovery", detail="%d-byte encrypted component: stored bytes %s CBC(key, 0, content||0*), read back %s" % (len(content), "==" if rawb.endswith(want_ct) else "!=", "equal" if g.components[0].blob[: len(content)] == content else "different"))
+    if kind == "hist":
+        n = job["n"]
+        key1, key2 = w.get("key1", bytes(range(16))), w.get("key2", bytes(range(1, 17)))
+        c1, c2 = w.get("c1", bytes(n)), w.get("c2", bytes(range(n)))
+        if c1 == c2:
+            c2 = bytes((x + 1) & 0xFF for x in c1)
+        comp = _mk_comp(bf, c1, n)
+        f = bf.Bf3File({}, [bf.Bf3Component({0xC3: b"\x02"}, b"\x01\x02\x03"), comp])
+        f.write_file(io.StringIO(), key1)
+        if job["var"] == "content-edit":
+            comp.blob = c2
+            want, k2 = c2, key1
+        else:
+            want, k2 = c1, key2
+        s = io.StringIO()
+        f.write_file(s, k2)
+        s.seek(0)
+        try:
+            g = bf.Bf3File.read_file(s, True, k2)
+            got = g.components[-1].blob[:n]
+        except Exception as e:
+            return dict(reproduced=True, signature="C06:stale-ciphertext", detail="second write of the same file object (%s) cannot be read back: %s: %s" % (job["var"], type(e).__name__, e))
+        return dict(reproduced=got != want, signature="C06:stale-ciphertext", detail="file object written twice (%s between the writes): second file decrypts to %s, component holds %s" % (job["var"], got.hex(), want.hex()))
     if kind == "rec":
         import random
 
